@@ -88,6 +88,43 @@ def run(ctx):
         ctx.count('K-nofmt-nonascii', key=bad)
         if o[0] == 'ok' or m[0] == 0:
             ctx.violation('non-ascii-payload-accepted', {'payload': bad, 'impl': o[0], 'model': m})
+    run_histories(ctx)
+
+
+def run_histories(ctx):
+    """Whole-API programs with add_no_format_frame_data calls, and write / edit / write histories in which the NO-FORMAT
+    object is moved to another origin between the writes: K-api correspondence, and in EVERY written file the type-1 records
+    are, in call order, the current identity of the object given in the call followed by exactly the call's payload."""
+    import apistream
+    import apimodel
+    rng = ctx.rng('histories')
+    for k in range(14 if ctx.tier == 'quick' else 140):
+        if k % 2:
+            prog, _fresh = apistream.rewrite_history(rng)
+        else:
+            prog, _fl = apistream.gen_program(rng, flavor='valid')
+            prog = apistream.add_nofmt(rng, prog)
+        r = apistream.run_one(ctx, prog, 'K-api-nofmt')
+        ctx.count('K-api-nofmt', key=k)
+        calls = [s for s in prog if s['op'] == 'nofmt']
+        ctx.stat('K-api-nofmt', 'calls', len(calls))
+        for (step, data, vrl, ident) in r['files']:
+            d = apistream.decode(ctx, data, vrl, ident)
+            if not d.ok:
+                ctx.violation('file-rejected-by-strict-reader', {'program': apistream.strip_private(prog), 'write_step': step})
+                continue
+            got = [rec for rec in d.iflrs() if rec[1] == 1]
+            done = [s for s, o in zip(prog[:step], r['outs'][:step]) if s['op'] == 'nofmt' and o[0] == 'ok']
+            ctx.stat('K-api-nofmt', 'records_checked', len(got))
+            if len(got) != len(done):
+                ctx.violation('number-of-no-format-records', {'program': apistream.strip_private(prog), 'write_step': step, 'records': len(got), 'accepted_calls': len(done)})
+                continue
+            for rec, s in zip(got, done):
+                p = s['payload']
+                want = bytes.fromhex(p['hex']) if 'hex' in p else p['text'].encode('ascii')
+                if not bytes(rec[2]).endswith(want) or len(rec[2]) - len(want) < 4:
+                    ctx.violation('no-format-record-does-not-end-with-the-payload-of-its-call', {'program': apistream.strip_private(prog), 'write_step': step, 'payload': want.hex()[:80]})
+                    break
 
 
 def replay(ctx, data):
